@@ -248,41 +248,72 @@ theorem resolveExprCore_notAddr {l r : Value} {op : Char} {mode : Mode} {x : Val
     | (cases h; rfl)
     | (simp only [Except.ok.injEq] at h; subst h; exact numericOfStr_notAddr ‹_›)
 
+theorem symPost_address {s : Value} {i : Nat} {m : Mode} (h : symPost s = .ok (.address i m)) :
+    ∃ m', s = .address i m' := by
+  cases s with
+  | address j mj =>
+    simp only [symPost, Value.isAddress, if_true, Except.ok.injEq, Value.address.injEq] at h
+    exact ⟨mj, by rw [h.1]⟩
+  | numeric a b c d =>
+    simp only [symPost, Value.isAddress, Value.isNumeric, if_true, Bool.false_eq_true, if_false] at h
+    have := numericOfInt_notAddr h
+    cases this
+  | _ => simp [symPost, Value.isAddress, Value.isNumeric] at h
+
+/-- what `resolve` makes of an expression is not a plain address -/
+theorem resolveF_expr_notAddr {n : Nat} {t : SymTab} {l r : Value} {op : Char} {mode : Mode} {ae : Bool} {x : Value}
+    (h : resolveF n (.expr l r op mode ae) t = .ok x) : x.isAddress = false := by
+  cases n with
+  | zero => cases h
+  | succ n =>
+    rw [resolveF_expr] at h
+    cases hl : lookF n t l with
+    | error e => rw [hl] at h; cases h
+    | ok l' =>
+      cases hr : lookF n t r with
+      | error e => rw [hl, hr] at h; cases h
+      | ok r' => rw [hl, hr] at h; exact resolveExprCore_notAddr h
+
+/-- `get_symbol` gives an address only for an entry that is that address -/
+theorem getSymF_address {n : Nat} {t : SymTab} {name : Str} {i : Nat} {m : Mode}
+    (h : getSymF n t name = .ok (.address i m)) : t.get? name = some (.address i m) := by
+  unfold getSymF at h
+  cases hg : t.get? name with
+  | none => rw [hg] at h; cases h
+  | some e =>
+    rw [hg] at h
+    dsimp only at h
+    split at h
+    · rename_i he
+      cases e with
+      | expr l r op mode ae => have := resolveF_expr_notAddr h; cases this
+      | _ => cases he
+    · cases h; rfl
+
+theorem resolveF_address {n : Nat} {t : SymTab} {v : Value} {i : Nat} {m : Mode}
+    (h : resolveF n v t = .ok (.address i m)) (hv : v.isAddress = false) :
+    ∃ k m', t.get? k = some (.address i m') := by
+  cases n with
+  | zero => cases h
+  | succ n =>
+    cases v with
+    | symbol name md =>
+      rw [resolveF_symbol] at h
+      cases hs : getSymF n t name with
+      | error e => rw [hs] at h; cases h
+      | ok s =>
+        rw [hs] at h
+        obtain ⟨m', rfl⟩ := symPost_address h
+        exact ⟨name, m', getSymF_address hs⟩
+    | expr l r op mode ae => have := resolveF_expr_notAddr h; cases this
+    | address j mj => cases hv
+    | _ => cases h
+
 /-- an address that comes out of `resolve` was looked up in the table -/
 theorem resolve_address {t : SymTab} {v : Value} {i : Nat} {m : Mode}
     (h : v.resolve t = .ok (.address i m)) (hv : v.isAddress = false) :
-    ∃ k m', t.get? k = some (.address i m') := by
-  cases v with
-  | symbol name md =>
-    unfold Value.resolve at h
-    dsimp only at h
-    cases hg : t.get? name with
-    | none => rw [hg] at h; cases h
-    | some s =>
-      rw [hg] at h
-      dsimp only at h
-      cases s with
-      | address j mj =>
-        simp only [Value.isAddress, if_true, Except.ok.injEq, Value.address.injEq] at h
-        exact ⟨name, mj, by rw [hg, h.1]⟩
-      | numeric a b c d =>
-        simp only [Value.isAddress, Value.isNumeric, if_true, Bool.false_eq_true, if_false] at h
-        have := numericOfInt_notAddr h
-        cases this
-      | _ => simp [Value.isAddress, Value.isNumeric] at h
-  | expr l r op mode ae =>
-    rw [resolve_expr_eq] at h
-    cases hl : lookV t l with
-    | error e => rw [hl] at h; cases h
-    | ok l' =>
-      cases hr : lookV t r with
-      | error e => rw [hl, hr] at h; cases h
-      | ok r' =>
-        rw [hl, hr] at h
-        have := resolveExprCore_notAddr h
-        cases this
-  | address j mj => cases hv
-  | _ => cases h
+    ∃ k m', t.get? k = some (.address i m') :=
+  resolveF_address h hv
 
 theorem resolveOperand_relative {o o' : Operand} {row : InstrRow} {t : SymTab}
     (h : resolveOperand o row t = .ok o') (hk : o'.kind = .relative) :
